@@ -52,6 +52,27 @@ def hard_keyword_names(src):
     return found
 
 
+_ESC = re.compile(r"\\(\n|N\{[^}]*\}|u[0-9a-fA-F]{4}|U[0-9a-fA-F]{8}|x[0-9a-fA-F]{2}|[0-7]{1,3}|.)",
+                  re.S)
+
+
+def decode_escapes(text):
+    """What CPython makes of the escape sequences of a (non-raw) string body; None if invalid."""
+    import warnings
+
+    def one(m):
+        esc = m.group(0)
+        quote = "'" if esc == '\\"' else '"'
+        with warnings.catch_warnings():
+            warnings.simplefilter("ignore")
+            return ast.literal_eval(quote + esc + quote)
+
+    try:
+        return _ESC.sub(one, text)
+    except (SyntaxError, ValueError):
+        return None
+
+
 class Diff(Exception):
     def __init__(self, path, nodetype, field, py, sc, lineno=None, cell=None, col=None):
         self.path, self.nodetype, self.field, self.py, self.sc = path, nodetype, field, py, sc
@@ -86,6 +107,7 @@ class Comparer:
         self.srclines = None
         self.seen = set()
         self.cols = []
+        self.fraw = []  # rawness of the enclosing f-strings
 
     # -- public -----------------------------------------------------------------------------
     def run(self, py, sc):
@@ -129,6 +151,13 @@ class Comparer:
             cell, field = type(py).__name__, a
             if a in ("col_offset", "end_col_offset") and self._chars_not_bytes(py, a, pv, sv):
                 cell, field = "non-ascii-line", "column-counted-in-chars-not-utf8-bytes"
+            elif a == "end_col_offset" and self._multiline_token_end(py, pv, sv):
+                cell, field = ("non-ascii-multiline-string",
+                               "end-column-converted-on-the-first-line-of-the-token")
+            elif a == "end_col_offset" and type(py) is ast.Constant and self.path \
+                    and self.path[-1].startswith("JoinedStr") and self._trailing_brace(py, pv, sv):
+                cell, field = ("fstring-literal-part:trailing-escaped-brace",
+                               "end_col_offset-one-less")
             elif type(py) in (ast.Constant, ast.JoinedStr) and self._string_tokens(py) > 1:
                 cell = type(py).__name__ + ":implicit-concatenation"
             elif type(py) is ast.Constant and self.path and self.path[-1].startswith("JoinedStr"):
@@ -160,6 +189,202 @@ class Comparer:
             return len(raw[:pv].decode("utf-8")) == sv
         except UnicodeDecodeError:
             return False
+
+    def _lines(self):
+        if self.srclines is None:
+            self.srclines = self.src.split("\n")
+        return self.srclines
+
+    def _multiline_token_end(self, py, pv, sv):
+        """Defect model: the node ends with a string token spanning several lines that contains
+        non-ASCII text; its end column is CPython's byte column turned into a character count on
+        the token's *first* line instead of its last."""
+        if self.src is None or not isinstance(pv, int) or not isinstance(sv, int):
+            return False
+        if not getattr(py, "end_lineno", None) or py.end_lineno == py.lineno:
+            return False
+        last = None
+        for n in ast.walk(py):
+            if type(n) in (ast.Constant, ast.JoinedStr) and getattr(n, "end_lineno", None) == \
+                    py.end_lineno and n.end_col_offset == pv and n.lineno != n.end_lineno:
+                last = n
+        if last is None:
+            return False
+        lines = self._lines()
+        if last.lineno > len(lines):
+            return False
+        # the byte column is counted from the start of the token's first line (running on into
+        # the following lines when that line is shorter)
+        raw = "\n".join(lines[last.lineno - 1:last.end_lineno]).encode("utf-8")
+        if raw[:pv].isascii():
+            return False
+        whole = len(raw[:pv].decode("utf-8", "ignore"))
+        cut = 0
+        try:
+            raw[:pv].decode("utf-8")
+        except UnicodeDecodeError:
+            cut = 1  # the byte column falls inside a character of that (wrong) line
+        return sv == whole + cut
+
+    def _trailing_brace(self, py, pv, sv):
+        """Defect model: a literal f-string part whose source ends with an escaped brace ({{ or
+        }}) ends one column early (the tokenize module's FSTRING_MIDDLE position)."""
+        if self.src is None or pv - sv != 1 or not py.end_lineno:
+            return False
+        lines = self._lines()
+        if py.end_lineno > len(lines):
+            return False
+        raw = lines[py.end_lineno - 1].encode("utf-8")[:pv]
+        return raw.endswith((b"{{", b"}}"))
+
+    # -- f-strings --------------------------------------------------------------------------
+    def _fstring_is_raw(self, py):
+        if self.fraw:
+            return self.fraw[-1]
+        if self.src is None:
+            return None
+        lines = self._lines()
+        if py.lineno > len(lines):
+            return None
+        text = lines[py.lineno - 1].encode("utf-8")[py.col_offset:py.col_offset + 3].decode(
+            "utf-8", "ignore")
+        m = re.match(r"[A-Za-z]{1,2}(?=['\"])", text)
+        if not m:
+            return None  # implicit concatenation starting with a plain literal, ...
+        return "r" in m.group(0).lower()
+
+    def joinedstr(self, py, sc):
+        if type(sc) is not ast.JoinedStr:
+            self.fail("JoinedStr", "type->" + type(sc).__name__, py, sc)
+        raw = self._fstring_is_raw(py)
+        self.fraw.append(raw)
+        try:
+            pv, sv = py.values, sc.values
+            aligned = len(pv) == len(sv) and all(type(a) is type(b) for a, b in zip(pv, sv))
+            same = aligned and all(a.value == b.value for a, b in zip(pv, sv)
+                                   if type(a) is ast.Constant)
+            if not same and self.joinedstr_models(py, sc, raw):
+                pass  # explained by known deviations (recorded), replacement fields compared
+            elif aligned:
+                for a, b in zip(pv, sv):
+                    if type(a) is ast.Constant:
+                        self.fstring_literal(a, b, raw)
+                    else:
+                        self.node(a, b, "JoinedStr.values")
+            else:
+                self.fail("JoinedStr", "values[len]", len(pv), len(sv))
+            self.attrs(py, sc)
+        finally:
+            self.fraw.pop()
+
+    def fstring_literal(self, a, b, raw, judge_location=True):
+        """A literal part; an un-decoded escape sequence is attributed to its defect model."""
+        self.path.append("JoinedStr.values")
+        try:
+            if type(b) is not ast.Constant:
+                self.fail("Constant", "type->" + type(b).__name__, a, b)
+            if a.value != b.value or type(a.value) is not type(b.value):
+                if raw is False and isinstance(b.value, str) and \
+                        decode_escapes(b.value) == a.value:
+                    self.record(Diff("/".join(self.path[-6:]), "Constant", "value",
+                                     _short(a), _short(b), a.lineno,
+                                     "fstring-literal-part:escapes-not-decoded", a.col_offset))
+                else:
+                    self.fail("Constant", "value", a.value, b.value, cell="fstring-literal-part")
+            if getattr(a, "kind", None) != getattr(b, "kind", None):
+                self.fail("Constant", "kind", a, b)
+            if judge_location:
+                self.attrs(a, b)
+        finally:
+            self.path.pop()
+
+    def joinedstr_models(self, py, sc, raw):
+        """The parts do not line up one to one: try the known deviations, each recorded under
+        its own cell; anything they do not explain exactly is a generic difference."""
+        models = []
+        # (1) a literal part that is exactly "{" taken for the brace of a replacement field
+        tv = []
+        for v in sc.values:
+            if type(v) is ast.FormattedValue and type(v.value) is ast.Set \
+                    and len(v.value.elts) == 1 and v.format_spec is None:
+                inner = ast.FormattedValue(value=v.value.elts[0], conversion=v.conversion,
+                                           format_spec=None)
+                inner._synthetic = True
+                tv += [ast.Constant("{"), inner, ast.Constant("}")]
+                models.append("brace-literal-taken-as-operator")
+            else:
+                tv.append(v)
+        # (2) escape sequences of literal parts not decoded (an escaped newline yields "")
+        merged = []
+        for v in tv:
+            if type(v) is ast.Constant and isinstance(v.value, str):
+                val = v.value
+                if raw is False:
+                    dec = decode_escapes(val)
+                    if dec != val:
+                        models.append("escapes-not-decoded")
+                        val = dec
+                if merged and type(merged[-1]) is ast.Constant:
+                    merged[-1] = ast.Constant(merged[-1].value + val)
+                elif val != "" or len(tv) == 1:
+                    merged.append(ast.Constant(val))
+            else:
+                merged.append(v)
+        # (3) the text of a self-documenting field `{expr=}` is missing: what CPython's parts
+        #     would be without it
+        ev = []
+        pvals = list(py.values)
+        for k, v in enumerate(pvals):
+            if type(v) is ast.Constant and isinstance(v.value, str) and k + 1 < len(pvals) \
+                    and type(pvals[k + 1]) is ast.FormattedValue and self.src is not None:
+                seg = ast.get_source_segment(self.src, pvals[k + 1].value)
+                m = seg and re.search(r"(\s*)" + re.escape(seg) + r"\s*=\s*$", v.value)
+                if m:
+                    # white space before the expression may belong to the literal or to the
+                    # field: take the split the other side shows
+                    j = len(ev)
+                    there = merged[j].value if j < len(merged) and \
+                        type(merged[j]) is ast.Constant else ""
+                    cands = [v.value[:i] for i in range(m.start(1), m.end(1) + 1)]
+                    keep = there if there in cands else cands[0]
+                    models.append("debug-specifier-text")
+                    pvals[k + 1]._debug = True
+                    if keep:
+                        ev.append(ast.Constant(keep))
+                    continue
+            ev.append(v)
+        ok = len(ev) == len(merged) and all(type(a) is type(b) for a, b in zip(ev, merged)) \
+            and all(a.value == b.value for a, b in zip(ev, merged) if type(a) is ast.Constant)
+        if not ok or not models:
+            return False
+        if len(py.values) == len(sc.values) and set(models) == {"escapes-not-decoded"}:
+            return False  # part-by-part comparison attributes this one (and judges locations)
+        for m in dict.fromkeys(models):
+            self.record(Diff("/".join(self.path[-6:]), "JoinedStr", "values[len]",
+                             f"{len(py.values)} parts: {_short(py)}",
+                             f"{len(sc.values)} parts: {_short(sc)}", py.lineno,
+                             "JoinedStr:" + m, py.col_offset))
+        for a, b in zip(ev, merged):
+            if type(a) is ast.FormattedValue:
+                self.formatted(a, b)
+        return True
+
+    def formatted(self, a, b):
+        """A replacement field of an f-string whose literal parts were re-aligned by a model."""
+        self.path.append("JoinedStr.values")
+        try:
+            self.node(a.value, b.value, "FormattedValue.value")
+            if a.conversion != b.conversion:
+                # CPython adds !r to `{x=}` only without a format spec; known companion of the
+                # missing debug text
+                if not (getattr(a, "_debug", False) and a.format_spec is not None
+                        and a.conversion == -1 and b.conversion == 114):
+                    self.fail("FormattedValue", "conversion", a.conversion, b.conversion)
+            self.value(a.format_spec, b.format_spec, "FormattedValue", "format_spec")
+            if not getattr(b, "_synthetic", False):
+                self.attrs(a, b)
+        finally:
+            self.path.pop()
 
     def _string_tokens(self, py):
         if self.src is None:
@@ -244,6 +469,8 @@ class Comparer:
             self.call(py, sc)
         elif t is ast.ClassDef:
             self.classdef(py, sc)
+        elif t is ast.JoinedStr:
+            self.joinedstr(py, sc)
         else:
             if type(sc) is not t:
                 self.fail(t.__name__, "type->" + type(sc).__name__, py, sc)
